@@ -249,6 +249,22 @@ impl<'tcx> Cx<'tcx> {
                     }
                 }
                 if let Some(b) = self.bytes_of_constvalue(cv, ty, env) {
+                    // fieldless enum constants: name the variant
+                    let inner = ty.builtin_deref(true).unwrap_or(ty);
+                    if let ty::Adt(adt, _) = inner.kind() {
+                        if adt.is_enum() && adt.is_payloadfree() && b.len() <= 16 && !b.is_empty() {
+                            let mut v: u128 = 0;
+                            for (i, x) in b.iter().enumerate() {
+                                v |= (*x as u128) << (8 * i);
+                            }
+                            for (vi, d) in adt.discriminants(tcx) {
+                                let mask = if b.len() == 16 { u128::MAX } else { (1u128 << (8 * b.len())) - 1 };
+                                if d.val & mask == v {
+                                    o.push(("variant", s(adt.variant(vi).name.to_string())));
+                                }
+                            }
+                        }
+                    }
                     if b.len() <= 4096 {
                         o.push(("bytes", J::Arr(b.iter().map(|x| J::UInt(*x as u128)).collect())));
                     }
